@@ -656,3 +656,10 @@ META["C04"]["outside"] = META["C04"]["outside"].replace("the long-term key deriv
 for _k, _hs in PROPS.items():
     if any(h.build == "slice" for h in _hs) and not any(h.name.endswith("glue_base") for h in _hs):
         PROPS[_k] = _hs + [_G_SEND[0]]
+
+# two timer calls (retransmission, then final time-out) with the mechanism's consuming marker: behaviour-based form of the C07 clause
+_G_TWO = [_g("glue_timeout_two_steps_st", timeout=2400, mem=16, bounds="1 live request, short-term mechanism model, two timer calls (retransmission then final time-out), marker arbitrary", covers=1),
+          _g("glue_timeout_two_steps_lt", tier="thorough", timeout=2400, mem=16, bounds="1 live request, long-term mechanism model, two timer calls, marker arbitrary", covers=1)]
+PROPS["C07"] = PROPS["C07"] + _G_TWO
+PROPS["C17"] = PROPS["C17"] + [_G_TWO[1]]
+PROPS["C08"] = PROPS["C08"] + [_G_TWO[1]]
